@@ -37,752 +37,16 @@
       `C05_cuckoo_roundtrip_reachable` needs no well-formedness hypothesis at all.
       `C05_cuckoo_loaded_inv`: a loaded filter satisfies `C15.Inv` and the bookkeeping again.
   Nothing is left as `_partial`.
+
+  The theorems live in one module per data-structure family, all in the namespace `PyProb.C05`, so
+  that a change of one family's extracted facts does not invalidate the other families:
+    * `Properties/C05_bloom.lean`  — `GeomStable`, `BloomWF`, `CBFWF`, `SubsOK`, `ExpandingWF`,
+      Bloom, counting Bloom, expanding / rotating;
+    * `Properties/C05_cms.lean`    — `CMSWF`, count-min family;
+    * `Properties/C05_cuckoo.lean` — `binCount`, `binNumber`, `CuckooTableWF`, `CuckooWF`,
+      `CuckooFits`, cuckoo and counting cuckoo (incl. reachable states).
+  This module only gathers them.
 -/
-import PyProb.Lemmas.Formats
-import PyProb.Lemmas.WFOps
-import PyProb.Lemmas.CuckooAcct
-import PyProb.Properties.C15
-
-namespace PyProb.C05
-open PyProb
-
-/-! ## well-formedness predicates -/
-
-/-- "reloading re-derives the same geometry" -/
-def GeomStable (geom : Geom) (est fpr32 k m : Nat) : Prop := geom est fpr32 = .ok (fpr32, k, m)
-
-structure BloomWF (b : Bloom) : Prop where
-  len : b.bits.length = Bloom.lengthOf b.m
-  bytes : ∀ x ∈ b.bits, x < 256
-  est : b.est < 2 ^ 64
-  fpr : b.fpr32 < 2 ^ 32
-  cnt0 : 0 ≤ b.count
-  cnt1 : b.count < 2 ^ 64
-
-structure CBFWF (c : CBF) : Prop where
-  len : c.cells.length = c.m
-  cells : ∀ x ∈ c.cells, 0 ≤ x ∧ x ≤ 4294967295
-  est : c.est < 2 ^ 64
-  fpr : c.fpr32 < 2 ^ 32
-  cnt0 : 0 ≤ c.count
-  cnt1 : c.count < 2 ^ 64
-
-/-- every sub-filter has the shared parameters and a full-size bit array -/
-def SubsOK (e : Expanding) : Prop :=
-  ∀ b ∈ e.blooms, b.est = e.est ∧ b.fpr32 = e.fpr32 ∧ b.k = e.k ∧ b.m = e.m ∧
-    b.bits.length = Bloom.lengthOf e.m
-
-instance (e : Expanding) : Decidable (SubsOK e) := by unfold SubsOK; infer_instance
-
-structure ExpandingWF (e : Expanding) : Prop where
-  nonempty : e.blooms ≠ []
-  subs : SubsOK e
-  counts : ∀ b ∈ e.blooms, 0 ≤ b.count ∧ b.count < 2 ^ 64
-  size : e.blooms.length < 2 ^ 64
-  est : e.est < 2 ^ 64
-  fpr : e.fpr32 < 2 ^ 32
-  added0 : 0 ≤ e.added
-  added1 : e.added < 2 ^ 64
-
-structure CMSWF (c : CMS) : Prop where
-  len : c.bins.length = c.w * c.d
-  bins : ∀ x ∈ c.bins, -2147483648 ≤ x ∧ x ≤ 2147483647
-  w : c.w < 2 ^ 32
-  d : c.d < 2 ^ 32
-  total0 : -9223372036854775808 ≤ c.total
-  total1 : c.total ≤ 9223372036854775807
-
-/-- sum of the counts of all bins -/
-def binCount (bks : List (List CBin)) : Nat := (bks.map fun bkt => (bkt.map (·.2)).sum).sum
-/-- number of bins -/
-def binNumber (bks : List (List CBin)) : Nat := (bks.map List.length).sum
-
-/-- the table part of the cuckoo well-formedness: implied by the table invariant of reachable
-    states (property C15) together with "no stored fingerprint is 0" -/
-structure CuckooTableWF (c : Cuckoo) : Prop where
-  cap : c.buckets.length = c.cap
-  bpos : 0 < c.b
-  bkts : ∀ bkt ∈ c.buckets, bkt.length ≤ c.b ∧
-    ∀ bin ∈ bkt, 0 < bin.1 ∧ (c.counting = false → bin.2 = 1)
-
-/-- table part plus the bookkeeping of the two element counters -/
-structure CuckooWF (c : Cuckoo) : Prop extends CuckooTableWF c where
-  count : c.count = (binCount c.buckets : Int)
-  unique : c.unique = if c.counting then (binNumber c.buckets : Int) else 0
-
-/-- everything fits its 32-bit field (otherwise `export` raises) -/
-structure CuckooFits (c : Cuckoo) : Prop where
-  blt : c.b < 2 ^ 32
-  swaps : c.maxSwaps < 2 ^ 32
-  bins : ∀ bkt ∈ c.buckets, ∀ bin ∈ bkt, bin.1 < 2 ^ 32 ∧ bin.2 < 2 ^ 32
-
-/-! ## Bloom filter -/
-
-theorem C05_bloom_export_ok (b : Bloom) (wf : BloomWF b) : ∃ bytes, b.exportBytes = .ok bytes := by
-  have h1 := wf.est; have h2 := wf.fpr; have h3 := wf.cnt0; have h4 := wf.cnt1
-  unfold Bloom.exportBytes Bloom.footerVals
-  rw [bloomFooter_pack, if_neg (by omega), if_neg (by omega), if_neg (by omega)]
-  exact ⟨_, rfl⟩
-
-/-- binary channel (`export`/`bytes()` then `frombytes`/`_load`) -/
-theorem C05_bloom_roundtrip (geom : Geom) (b : Bloom) (bytes : Bytes)
-    (hlen : b.bits.length = Bloom.lengthOf b.m)
-    (hg : GeomStable geom b.est b.fpr32 b.k b.m)
-    (h : b.exportBytes = .ok bytes) : Bloom.load geom bytes = .ok b := by
-  unfold Bloom.exportBytes at h
-  split at h
-  · rename_i f hf
-    injection h with h; subst h
-    unfold Bloom.load
-    rw [lastN_append _ _ _ (pack_length _ _ _ hf), ofFooter_pack geom _ f _ _ _ _ _ _ hf hg]
-    simp only [Bloom.bloomLength, bloomCell_size, Nat.one_mul]
-    rw [take_append_of_length _ _ _ hlen]
-  · cases h
-
-/-- a second export of the reloaded filter gives exactly the same bytes -/
-theorem C05_bloom_stable (geom : Geom) (b : Bloom) (bytes : Bytes)
-    (hlen : b.bits.length = Bloom.lengthOf b.m)
-    (hg : GeomStable geom b.est b.fpr32 b.k b.m)
-    (h : b.exportBytes = .ok bytes) :
-    ∃ b', Bloom.load geom bytes = .ok b' ∧ b'.exportBytes = .ok bytes :=
-  ⟨b, C05_bloom_roundtrip geom b bytes hlen hg h, h⟩
-
-/-- hex channel (`export_hex` then `_load_hex`) -/
-theorem C05_bloom_hex_roundtrip (geom : Geom) (b : Bloom) (hex : List Char)
-    (hlen : b.bits.length = Bloom.lengthOf b.m)
-    (hbytes : ∀ x ∈ b.bits, x < 256)
-    (hg : GeomStable geom b.est b.fpr32 b.k b.m)
-    (h : b.exportHex = .ok hex) : Bloom.loadHex geom hex = .ok b := by
-  unfold Bloom.exportHex at h
-  split at h
-  · rename_i f hf
-    injection h with h; subst h
-    have hfl : f.length = 20 := by rw [pack_length _ _ _ hf, bloomFooterHex_size]
-    have htake : b.bits.take b.bloomLength = b.bits := List.take_of_length_le (by simp [Bloom.bloomLength, hlen])
-    unfold Bloom.loadHex
-    simp only [bloomFooterHex_size, htake]
-    rw [lastN_append _ _ _ (by rw [hexlify_length, hfl])]
-    rw [List.length_append, hexlify_length f, hfl, Nat.add_sub_cancel, List.take_left]
-    rw [unhexlify_hexlify _ (pack_lt _ _ _ hf), unhexlify_hexlify _ hbytes]
-    simp only [ofFooter_pack geom _ f _ _ _ _ _ _ hf hg]
-  · cases h
-
-/-- the hex text is the hex of the binary export's cell prefix, and decodes to it -/
-theorem C05_bloom_hex_same_payload (b : Bloom) (hex : List Char) (bytes : Bytes)
-    (hlen : b.bits.length = Bloom.lengthOf b.m)
-    (hh : b.exportHex = .ok hex) (hb : b.exportBytes = .ok bytes) :
-    hex.take (2 * b.bloomLength) = hexlify (bytes.take b.bloomLength) ∧
-    ((∀ x ∈ b.bits, x < 256) → unhexlify (hex.take (2 * b.bloomLength)) = some (bytes.take b.bloomLength)) := by
-  unfold Bloom.exportHex at hh
-  unfold Bloom.exportBytes at hb
-  split at hh
-  · split at hb
-    · injection hh with hh; injection hb with hb; subst hh; subst hb
-      have hl : b.bits.length = b.bloomLength := hlen
-      have htake : b.bits.take b.bloomLength = b.bits := List.take_of_length_le (by omega)
-      rw [htake, take_append_of_length _ _ _ (by rw [hexlify_length, hl]), take_append_of_length _ _ _ hl]
-      exact ⟨rfl, fun hx => unhexlify_hexlify _ hx⟩
-    · cases hb
-  · cases hh
-
-/-- both channels carry the same footer values, in the byte order of their layout -/
-theorem C05_bloom_hex_same_footer (b : Bloom) (hex : List Char) (bytes : Bytes)
-    (hh : b.exportHex = .ok hex) (hb : b.exportBytes = .ok bytes) :
-    (unhexlify (Bloom.lastN (2 * Gen.bloomFooterHex.size) hex)).map Gen.bloomFooterHex.unpack
-      = some (Gen.bloomFooter.unpack (Bloom.lastN Gen.bloomFooter.size bytes)) := by
-  unfold Bloom.exportHex at hh
-  unfold Bloom.exportBytes at hb
-  split at hh
-  · rename_i fh hfh
-    split at hb
-    · rename_i fb hfb
-      injection hh with hh; injection hb with hb; subst hh; subst hb
-      have hfl : fh.length = 20 := by rw [pack_length _ _ _ hfh, bloomFooterHex_size]
-      rw [lastN_append _ _ _ (pack_length _ _ _ hfb), bloomFooterHex_size,
-        lastN_append _ _ _ (by rw [hexlify_length, hfl]), unhexlify_hexlify _ (pack_lt _ _ _ hfh)]
-      simp only [Option.map_some, unpack_pack _ _ _ hfh, unpack_pack _ _ _ hfb]
-    · cases hb
-  · cases hh
-
-/-! ### reachable Bloom states are well formed -/
-
-theorem C05_bloom_new_wf (est fpr32 k m : Nat) (he : est < 2 ^ 64) (hf : fpr32 < 2 ^ 32) :
-    BloomWF (Bloom.new est fpr32 k m) := by
-  refine ⟨by simp [Bloom.new], ?_, he, hf, by simp [Bloom.new], by simp [Bloom.new]⟩
-  intro x hx
-  simp only [Bloom.new, List.mem_replicate] at hx
-  omega
-
-private theorem setBitB_lt (bs : Bytes) (k : Nat) (h : ∀ x ∈ bs, x < 256) : ∀ x ∈ setBitB bs k, x < 256 := by
-  intro x hx
-  unfold setBitB at hx
-  rcases List.mem_or_eq_of_mem_set hx with hx | rfl
-  · exact h x hx
-  · have h1 : bs.getD (k / 8) 0 < 2 ^ 8 := by
-      rw [List.getD_eq_getElem?_getD]
-      cases hq : bs[k / 8]? with
-      | none => simp
-      | some v => simpa using h v (List.mem_of_getElem? hq)
-    have h2 : 1 <<< (k % 8) < 2 ^ 8 := by
-      rw [Nat.one_shiftLeft]; exact Nat.pow_lt_pow_right (by decide) (Nat.mod_lt _ (by decide))
-    exact Nat.or_lt_two_pow h1 h2
-
-private theorem foldl_setBitB_inv (ps : List Nat) (bs : Bytes) (n : Nat)
-    (hl : bs.length = n) (h : ∀ x ∈ bs, x < 256) :
-    (ps.foldl setBitB bs).length = n ∧ ∀ x ∈ ps.foldl setBitB bs, x < 256 := by
-  induction ps generalizing bs with
-  | nil => exact ⟨hl, h⟩
-  | cons p ps ih =>
-      simp only [List.foldl_cons]
-      exact ih _ (by simp [setBitB, hl]) (setBitB_lt _ _ h)
-
-/-- `add_alt` keeps the array shape and the byte range; the counter stays below 2^64 as long as
-    fewer than 2^64 elements were added (beyond that the real `export` raises `struct.error`) -/
-theorem C05_bloom_add_wf (b : Bloom) (hs : List Nat) (wf : BloomWF b) (hc : b.count + 1 < 2 ^ 64) :
-    BloomWF (b.addAlt hs).1 := by
-  have hinv := foldl_setBitB_inv (b.positions hs) b.bits _ wf.len wf.bytes
-  have h0 := wf.cnt0; have h1 := wf.cnt1
-  unfold Bloom.addAlt
-  simp only
-  split
-  · exact ⟨hinv.1, hinv.2, wf.est, wf.fpr, wf.cnt0, wf.cnt1⟩
-  · exact ⟨hinv.1, hinv.2, wf.est, wf.fpr, by simp only; omega, hc⟩
-
-/-! ## counting Bloom filter -/
-
-theorem C05_cbf_export_ok (c : CBF) (wf : CBFWF c) : ∃ bytes, c.exportBytes = .ok bytes := by
-  have h1 := wf.est; have h2 := wf.fpr; have h3 := wf.cnt0; have h4 := wf.cnt1
-  unfold CBF.exportBytes CBF.footerVals
-  rw [bloomFooter_pack, if_neg (by omega), if_neg (by omega), if_neg (by omega)]
-  exact ⟨_, rfl⟩
-
-private theorem u32_range {cells : List Int} (h : ∀ x ∈ cells, 0 ≤ x ∧ x ≤ 4294967295) :
-    ∀ c ∈ cells, Field.u32.lo ≤ c ∧ c ≤ Field.u32.hi := by
-  intro c hc; simpa [Field.lo, Field.hi, Gen.uint32Max] using h c hc
-
-theorem C05_cbf_roundtrip (geom : Geom) (c : CBF) (bytes : Bytes)
-    (hlen : c.cells.length = c.m)
-    (hcells : ∀ x ∈ c.cells, 0 ≤ x ∧ x ≤ 4294967295)
-    (hg : GeomStable geom c.est c.fpr32 c.k c.m)
-    (h : c.exportBytes = .ok bytes) : CBF.load geom bytes = .ok c := by
-  unfold CBF.exportBytes at h
-  split at h
-  · rename_i f hf
-    injection h with h; subst h
-    unfold CBF.load
-    rw [lastN_append _ _ _ (pack_length _ _ _ hf), ofFooter_pack geom _ f _ _ _ _ _ _ hf hg]
-    simp only [cbfCell_size]
-    rw [take_append_of_length _ _ _ (by rw [cellsBytes_length, hlen]; rfl)]
-    rw [bytesCells_cellsBytes _ _ _ hlen.symm (u32_range hcells)]
-  · cases h
-
-theorem C05_cbf_stable (geom : Geom) (c : CBF) (bytes : Bytes)
-    (hlen : c.cells.length = c.m)
-    (hcells : ∀ x ∈ c.cells, 0 ≤ x ∧ x ≤ 4294967295)
-    (hg : GeomStable geom c.est c.fpr32 c.k c.m)
-    (h : c.exportBytes = .ok bytes) :
-    ∃ c', CBF.load geom bytes = .ok c' ∧ c'.exportBytes = .ok bytes :=
-  ⟨c, C05_cbf_roundtrip geom c bytes hlen hcells hg h, h⟩
-
-theorem C05_cbf_hex_roundtrip (geom : Geom) (c : CBF) (hex : List Char)
-    (hlen : c.cells.length = c.m)
-    (hcells : ∀ x ∈ c.cells, 0 ≤ x ∧ x ≤ 4294967295)
-    (hg : GeomStable geom c.est c.fpr32 c.k c.m)
-    (h : c.exportHex = .ok hex) : CBF.loadHex geom hex = .ok c := by
-  unfold CBF.exportHex at h
-  split at h
-  · rename_i f hf
-    injection h with h; subst h
-    have hfl : f.length = 20 := by rw [pack_length _ _ _ hf, bloomFooterHex_size]
-    unfold CBF.loadHex
-    simp only [bloomFooterHex_size]
-    rw [lastN_append _ _ _ (by rw [hexlify_length, hfl])]
-    rw [List.length_append, hexlify_length f, hfl, Nat.add_sub_cancel, List.take_left]
-    rw [unhexlify_hexlify _ (pack_lt _ _ _ hf), unhexlify_hexlify _ (cellsBytes_lt _ _)]
-    simp only [ofFooter_pack geom _ f _ _ _ _ _ _ hf hg, cbfCell_size, cellsBytes_length, Field.size]
-    rw [if_neg (by simp)]
-    rw [bytesCells_cellsBytes _ _ _ (by omega) (u32_range hcells)]
-  · cases h
-
-/-- the hex text is the hex of the binary export's cell prefix -/
-theorem C05_cbf_hex_same_payload (c : CBF) (hex : List Char) (bytes : Bytes)
-    (hh : c.exportHex = .ok hex) (hb : c.exportBytes = .ok bytes) :
-    hex.take (2 * (4 * c.cells.length)) = hexlify (bytes.take (4 * c.cells.length)) ∧
-    unhexlify (hex.take (2 * (4 * c.cells.length))) = some (bytes.take (4 * c.cells.length)) := by
-  unfold CBF.exportHex at hh
-  unfold CBF.exportBytes at hb
-  split at hh
-  · split at hb
-    · injection hh with hh; injection hb with hb; subst hh; subst hb
-      have hl : (cellsBytes .u32 c.cells).length = 4 * c.cells.length := by rw [cellsBytes_length]; rfl
-      rw [take_append_of_length _ _ _ (by rw [hexlify_length, hl]), take_append_of_length _ _ _ hl]
-      exact ⟨rfl, unhexlify_hexlify _ (cellsBytes_lt _ _)⟩
-    · cases hb
-  · cases hh
-
-theorem C05_cbf_new_wf (est fpr32 k m : Nat) (he : est < 2 ^ 64) (hf : fpr32 < 2 ^ 32) :
-    CBFWF (CBF.new est fpr32 k m) := by
-  refine ⟨by simp [CBF.new], ?_, he, hf, by simp [CBF.new], by simp [CBF.new]⟩
-  intro x hx
-  simp only [CBF.new, List.mem_replicate] at hx
-  omega
-
-/-- `add_alt` (any hash list, any `num_els`) keeps the array shape and the cell range -/
-theorem C05_cbf_add_wf (c : CBF) (hs : List Nat) (n : Int)
-    (hlen : c.cells.length = c.m) (hcells : ∀ x ∈ c.cells, 0 ≤ x ∧ x ≤ 4294967295) :
-    (c.addAlt hs n).1.cells.length = (c.addAlt hs n).1.m ∧
-      ∀ x ∈ (c.addAlt hs n).1.cells, 0 ≤ x ∧ x ≤ 4294967295 := by
-  obtain ⟨h1, h2, h3⟩ := cbf_addAlt_ok c hs n hcells
-  exact ⟨by rw [h2, h3, hlen], h1⟩
-
-/-- `remove_alt` with a non-negative `num_els` keeps the array shape and the cell range -/
-theorem C05_cbf_remove_wf (c : CBF) (hs : List Nat) (n : Int) (hn : 0 ≤ n)
-    (hlen : c.cells.length = c.m) (hcells : ∀ x ∈ c.cells, 0 ≤ x ∧ x ≤ 4294967295) :
-    (c.removeAlt hs n).1.cells.length = (c.removeAlt hs n).1.m ∧
-      ∀ x ∈ (c.removeAlt hs n).1.cells, 0 ≤ x ∧ x ≤ 4294967295 := by
-  obtain ⟨h1, h2, h3⟩ := cbf_removeAlt_ok c hs n hn hcells
-  exact ⟨by rw [h2, h3, hlen], h1⟩
-
-/-! ## expanding and rotating Bloom filters -/
-
-private theorem go_ok (blooms : List Bloom) (h : ∀ b ∈ blooms, 0 ≤ b.count ∧ b.count < 2 ^ 64) :
-    ∃ body, Expanding.exportBytes.go blooms = .ok body := by
-  induction blooms with
-  | nil => exact ⟨_, rfl⟩
-  | cons b bs ih =>
-      obtain ⟨rest, hrest⟩ := ih (fun x hx => h x (List.mem_cons_of_mem _ hx))
-      have hb := h b (by simp)
-      simp only [Expanding.exportBytes.go, expCount_pack, hrest]
-      rw [if_neg (by omega)]
-      exact ⟨_, rfl⟩
-
-theorem C05_expanding_export_ok (e : Expanding) (wf : ExpandingWF e) : ∃ bytes, e.exportBytes = .ok bytes := by
-  obtain ⟨body, hbody⟩ := go_ok e.blooms wf.counts
-  have h1 := wf.size; have h2 := wf.est; have h3 := wf.fpr; have h4 := wf.added0; have h5 := wf.added1
-  unfold Expanding.exportBytes
-  rw [hbody, expFooter_pack, if_neg (by omega), if_neg (by omega), if_neg (by omega), if_neg (by omega)]
-  exact ⟨_, rfl⟩
-
-theorem C05_expanding_roundtrip (geom : Geom) (e : Expanding) (bytes : Bytes)
-    (hne : e.blooms ≠ [])
-    (hsubs : SubsOK e)
-    (hg : GeomStable geom e.est e.fpr32 e.k e.m)
-    (h : e.exportBytes = .ok bytes) : Expanding.load geom bytes = .ok e := by
-  unfold Expanding.exportBytes at h
-  split at h
-  · rename_i body f hbody hf
-    injection h with h; subst h
-    unfold Expanding.load
-    rw [lastN_append _ _ _ (pack_length _ _ _ hf), unpack_pack _ _ _ hf]
-    have hlen : 0 < e.blooms.length := List.length_pos_iff.mpr hne
-    have hsz : ((e.blooms.length : Int) == 0) = false := by
-      simp only [beq_eq_false_iff_ne, ne_eq]; omega
-    simp only [hsz, Bool.false_eq_true, if_false, Int.toNat_natCast]
-    have hg' : geom (e.est : Int) e.fpr32 = .ok (e.fpr32, e.k, e.m) := hg
-    rw [hg']
-    simp only [bloomCell_size, Nat.one_mul]
-    have hp := parseBlooms_go (Bloom.new e.est e.fpr32 e.k e.m) (Bloom.lengthOf e.m) e.blooms body f
-      (by intro b hb; simpa [Bloom.new] using hsubs b hb) hbody
-    have : (Bloom.new e.est e.fpr32 e.k e.m).bloomLength = Bloom.lengthOf e.m := rfl
-    rw [this, hp]
-  · cases h
-  · cases h
-
-theorem C05_expanding_stable (geom : Geom) (e : Expanding) (bytes : Bytes)
-    (hne : e.blooms ≠ []) (hsubs : SubsOK e)
-    (hg : GeomStable geom e.est e.fpr32 e.k e.m)
-    (h : e.exportBytes = .ok bytes) :
-    ∃ e', Expanding.load geom bytes = .ok e' ∧ e'.exportBytes = .ok bytes :=
-  ⟨e, C05_expanding_roundtrip geom e bytes hne hsubs hg h, h⟩
-
-/-- the rotating filter shares the format; its queue limit is re-supplied by the caller -/
-def Rotating.load (geom : Geom) (q : Int) (file : Bytes) : R Rotating :=
-  match Expanding.load geom file with
-  | .ok e => .ok { e with q := q }
-  | .error x => .error x
-
-theorem C05_rotating_roundtrip (geom : Geom) (r : Rotating) (bytes : Bytes)
-    (hne : r.blooms ≠ []) (hsubs : SubsOK r.toExpanding)
-    (hg : GeomStable geom r.est r.fpr32 r.k r.m)
-    (h : r.toExpanding.exportBytes = .ok bytes) : Rotating.load geom r.q bytes = .ok r := by
-  unfold Rotating.load
-  rw [C05_expanding_roundtrip geom r.toExpanding bytes hne hsubs hg h]
-
-theorem C05_expanding_new_wf (est fpr32 k m : Nat) (he : est < 2 ^ 64) (hf : fpr32 < 2 ^ 32) :
-    ExpandingWF (Expanding.new est fpr32 k m) := by
-  refine ⟨by simp [Expanding.new], ?_, ?_, by simp [Expanding.new], he, hf, by simp [Expanding.new],
-    by simp [Expanding.new]⟩
-  · intro b hb
-    simp only [Expanding.new, List.mem_singleton] at hb
-    subst hb; simp [Bloom.new, Expanding.new]
-  · intro b hb
-    simp only [Expanding.new, List.mem_singleton] at hb
-    subst hb; simp [Bloom.new]
-
-/-- growth (`push`, and the growth step of `add_alt`) keeps the sub-filters uniform -/
-theorem C05_expanding_push_subs (e : Expanding) (h : SubsOK e) : SubsOK e.push := by
-  intro b hb
-  simp only [Expanding.push, List.mem_append, List.mem_singleton] at hb
-  rcases hb with hb | hb
-  · exact h b hb
-  · rw [hb]; simp [Expanding.fresh, Bloom.new, Expanding.push]
-
-/-- `add_alt` (growth included) keeps the sub-filters uniform and the list non-empty -/
-theorem C05_expanding_add_wf (e : Expanding) (hs : List Nat) (force : Bool)
-    (hne : e.blooms ≠ []) (hsubs : SubsOK e) :
-    (e.addAlt hs force).1.blooms ≠ [] ∧ SubsOK (e.addAlt hs force).1 :=
-  let h := expanding_addAlt_ok e hs force hsubs hne
-  ⟨h.2, h.1⟩
-
-/-- rotating filter: `add_alt` (rotation included), `push` and `pop` keep the sub-filters uniform,
-    the queue non-empty and the queue limit -/
-theorem C05_rotating_add_wf (r : Rotating) (hs : List Nat) (force : Bool)
-    (hne : r.blooms ≠ []) (hsubs : SubsOK r.toExpanding) :
-    (r.addAlt hs force).1.blooms ≠ [] ∧ SubsOK (r.addAlt hs force).1.toExpanding ∧ (r.addAlt hs force).1.q = r.q :=
-  let h := rotating_addAlt_ok r hs force hsubs hne
-  ⟨h.2.1, h.1, h.2.2⟩
-
-theorem C05_rotating_push_wf (r : Rotating) (hne : r.blooms ≠ []) (hsubs : SubsOK r.toExpanding) :
-    r.push.blooms ≠ [] ∧ SubsOK r.push.toExpanding ∧ r.push.q = r.q := by
-  obtain ⟨h1, h2, g1, g2, g3, g4, g5⟩ := rotate_ok r true hsubs hne
-  refine ⟨h2, ?_, g5⟩
-  intro b hb
-  have := h1 b hb
-  unfold Rotating.push
-  rw [g1, g2, g3, g4]
-  exact this
-
-theorem C05_rotating_pop_wf (r r' : Rotating) (hsubs : SubsOK r.toExpanding) (hne : r.blooms ≠ [])
-    (hp : r.pop = .ok r') :
-    r'.blooms ≠ [] ∧ SubsOK r'.toExpanding ∧ r'.q = r.q := by
-  unfold Rotating.pop at hp
-  split at hp
-  · cases hp
-  · rename_i hlen
-    injection hp with hp; subst hp
-    refine ⟨?_, fun b hb => hsubs b (List.mem_of_mem_drop hb), rfl⟩
-    simp only [ne_eq, List.drop_eq_nil_iff, Nat.not_le]
-    have : r.blooms.length ≠ 1 := by simpa using hlen
-    have : 0 < r.blooms.length := List.length_pos_iff.mpr hne
-    omega
-
-/-! ## count-min sketch family -/
-
-theorem C05_cms_export_ok (c : CMS) (wf : CMSWF c) : ∃ bytes, c.exportBytes = .ok bytes := by
-  have h1 := wf.w; have h2 := wf.d; have h3 := wf.total0; have h4 := wf.total1
-  unfold CMS.exportBytes
-  rw [cmsFooter_pack, if_neg (by omega), if_neg (by omega), if_neg (by omega)]
-  exact ⟨_, rfl⟩
-
-/-- the loader rebuilds the receiver's class: the query mode is re-supplied -/
-theorem C05_cms_roundtrip (mode : Mode) (c : CMS) (bytes : Bytes)
-    (hlen : c.bins.length = c.w * c.d)
-    (hbins : ∀ x ∈ c.bins, -2147483648 ≤ x ∧ x ≤ 2147483647)
-    (h : c.exportBytes = .ok bytes) : CMS.load mode bytes = .ok { c with mode := mode } := by
-  unfold CMS.exportBytes at h
-  split at h
-  · rename_i f hf
-    injection h with h; subst h
-    unfold CMS.load
-    rw [cms_lastN_append _ _ _ (pack_length _ _ _ hf), unpack_pack _ _ _ hf]
-    have hcl : (cellsBytes .i32 c.bins).length = 4 * (c.w * c.d) := by rw [cellsBytes_length, hlen]; rfl
-    simp only [cmsCell_size, Int.toNat_natCast]
-    rw [take_append_of_length _ _ _ hcl, hcl]
-    rw [if_neg (by simp)]
-    rw [bytesCells_cellsBytes _ _ _ (by omega)
-      (by intro x hx; simpa [Field.lo, Field.hi, Gen.int32Min, Gen.int32Max] using hbins x hx)]
-  · cases h
-
-theorem C05_cms_roundtrip_same_mode (c : CMS) (bytes : Bytes)
-    (hlen : c.bins.length = c.w * c.d)
-    (hbins : ∀ x ∈ c.bins, -2147483648 ≤ x ∧ x ≤ 2147483647)
-    (h : c.exportBytes = .ok bytes) : CMS.load c.mode bytes = .ok c :=
-  C05_cms_roundtrip c.mode c bytes hlen hbins h
-
-theorem C05_cms_stable (mode : Mode) (c : CMS) (bytes : Bytes)
-    (hlen : c.bins.length = c.w * c.d)
-    (hbins : ∀ x ∈ c.bins, -2147483648 ≤ x ∧ x ≤ 2147483647)
-    (h : c.exportBytes = .ok bytes) :
-    ∃ c', CMS.load mode bytes = .ok c' ∧ c'.exportBytes = .ok bytes :=
-  ⟨_, C05_cms_roundtrip mode c bytes hlen hbins h, h⟩
-
-theorem C05_cms_new_wf (w d : Nat) (mode : Mode) (hw : w < 2 ^ 32) (hd : d < 2 ^ 32) :
-    CMSWF (CMS.new w d mode) := by
-  refine ⟨by simp [CMS.new], ?_, hw, hd, by simp [CMS.new], by simp [CMS.new]⟩
-  intro x hx
-  simp only [CMS.new, List.mem_replicate] at hx
-  omega
-
-/-- `add_alt` / `remove_alt` (any hash list, any `num_els`) keep the array shape and the int32 range -/
-theorem C05_cms_add_wf (c : CMS) (hs : List Nat) (n : Int)
-    (hlen : c.bins.length = c.w * c.d) (hbins : ∀ x ∈ c.bins, -2147483648 ≤ x ∧ x ≤ 2147483647) :
-    (c.addAlt hs n).1.bins.length = (c.addAlt hs n).1.w * (c.addAlt hs n).1.d ∧
-      ∀ x ∈ (c.addAlt hs n).1.bins, -2147483648 ≤ x ∧ x ≤ 2147483647 := by
-  obtain ⟨h1, h2, h3, h4⟩ := cms_addAlt_ok c hs n hbins
-  exact ⟨by rw [h2, h3, h4, hlen], h1⟩
-
-theorem C05_cms_remove_wf (c : CMS) (hs : List Nat) (n : Int)
-    (hlen : c.bins.length = c.w * c.d) (hbins : ∀ x ∈ c.bins, -2147483648 ≤ x ∧ x ≤ 2147483647) :
-    (c.removeAlt hs n).1.bins.length = (c.removeAlt hs n).1.w * (c.removeAlt hs n).1.d ∧
-      ∀ x ∈ (c.removeAlt hs n).1.bins, -2147483648 ≤ x ∧ x ≤ 2147483647 := by
-  obtain ⟨h1, h2, h3, h4⟩ := cms_removeAlt_ok c hs n hbins
-  exact ⟨by rw [h2, h3, h4, hlen], h1⟩
-
-/-! ## cuckoo and counting cuckoo filters -/
-
-private theorem cuckoo_export_eq (c : Cuckoo) : c.exportBytes =
-    if c.buckets.any (fun bkt => bkt.any fun bin => bin.1 ≥ 2 ^ 32 ∨ bin.2 ≥ 2 ^ 32) then .error .overflow
-    else
-      match Gen.cuckooFooter.pack [c.b, c.maxSwaps] with
-      | .ok f => .ok (c.buckets.flatMap (bucketBytes c.counting c.b) ++ f)
-      | .error e => .error e := rfl
-
-theorem C05_cuckoo_export_ok (c : Cuckoo) (fits : CuckooFits c) : ∃ bytes, c.exportBytes = .ok bytes := by
-  have h1 := fits.blt; have h2 := fits.swaps
-  rw [cuckoo_export_eq, if_neg]
-  · rw [cuckooFooter_pack, if_neg (by omega), if_neg (by omega)]
-    exact ⟨_, rfl⟩
-  · simp only [List.any_eq_true, decide_eq_true_eq, not_exists, not_and]
-    intro bkt hbkt bin hbin
-    have := fits.bins bkt hbkt bin hbin
-    omega
-
-/-- conversely a successful export means everything fitted -/
-theorem C05_cuckoo_export_fits (c : Cuckoo) (bytes : Bytes) (h : c.exportBytes = .ok bytes) : CuckooFits c := by
-  rw [cuckoo_export_eq] at h
-  split at h
-  · cases h
-  · rename_i hany
-    rw [cuckooFooter_pack] at h
-    have hbins : ∀ bkt ∈ c.buckets, ∀ bin ∈ bkt, bin.1 < 2 ^ 32 ∧ bin.2 < 2 ^ 32 := by
-      simp only [List.any_eq_true, decide_eq_true_eq, not_exists, not_and] at hany
-      intro bkt hbkt bin hbin
-      have := hany bkt hbkt bin hbin
-      omega
-    by_cases h1 : (c.b : Int) < 0 ∨ (c.b : Int) > 4294967295
-    · rw [if_pos h1] at h; cases h
-    · by_cases h2 : (c.maxSwaps : Int) < 0 ∨ (c.maxSwaps : Int) > 4294967295
-      · rw [if_neg h1, if_pos h2] at h; cases h
-      · exact ⟨by omega, by omega, hbins⟩
-
-/-- the table, the bucket size and the swap limit come back; the two element counters are
-    recomputed from the table.  What the format does not store (`rate`, `auto`, `fpBits`, and which
-    of the two classes) comes from the `template` the caller constructs -/
-theorem C05_cuckoo_roundtrip_table (template c : Cuckoo) (bytes : Bytes) (wf : CuckooTableWF c)
-    (ht : template.counting = c.counting)
-    (h : c.exportBytes = .ok bytes) :
-    Cuckoo.load template bytes =
-      .ok { template with cap := c.cap, b := c.b, maxSwaps := c.maxSwaps, buckets := c.buckets,
-                          count := (binCount c.buckets : Int),
-                          unique := if c.counting then (binNumber c.buckets : Int) else 0 } := by
-  have fits := C05_cuckoo_export_fits c bytes h
-  have hbk : ∀ bkt ∈ c.buckets, bkt.length ≤ c.b ∧ ∀ bin ∈ bkt, BinOK c.counting bin := by
-    intro bkt hbkt
-    refine ⟨(wf.bkts bkt hbkt).1, fun bin hbin => ?_⟩
-    have h1 := (wf.bkts bkt hbkt).2 bin hbin
-    have h2 := fits.bins bkt hbkt bin hbin
-    exact ⟨h1.1, h2.1, h2.2, h1.2⟩
-  rw [cuckoo_export_eq] at h
-  split at h
-  · cases h
-  · split at h
-    · rename_i f hf
-      injection h with h; subst h
-      have hfl : f.length = 8 := by rw [pack_length _ _ _ hf, cuckooFooter_size]
-      have hbl := body_length c.counting c.b c.buckets (fun bkt hb => (wf.bkts bkt hb).1)
-      have hbpos := wf.bpos
-      unfold Cuckoo.load
-      simp only [cuckooFooter_size, List.length_append, hfl, Nat.add_sub_cancel]
-      rw [if_neg (by omega), List.drop_left, unpack_pack _ _ _ hf]
-      simp only [Int.toNat_natCast]
-      have hb0 : (c.b == 0) = false := by simp only [beq_eq_false_iff_ne, ne_eq]; omega
-      simp only [hb0, Bool.false_eq_true, if_false, ht]
-      have hcap : (c.buckets.flatMap (bucketBytes c.counting c.b)).length / (if c.counting = true then 8 else 4) / c.b
-          = c.buckets.length := by
-        rw [hbl, Nat.div_div_eq_div_mul]
-        have : cuckooW c.counting = if c.counting = true then 8 else 4 := rfl
-        rw [← this]
-        exact Nat.mul_div_cancel _ (Nat.mul_pos (by unfold cuckooW; split <;> decide) hbpos)
-      rw [hcap, parseBuckets_body c.counting c.b c.buckets f hbk, wf.cap]
-      rfl
-    · cases h
-
-/-- with the counters' bookkeeping (`count = Σ counts`, `unique = number of bins`) the loaded
-    filter has the same counters -/
-theorem C05_cuckoo_roundtrip (template c : Cuckoo) (bytes : Bytes) (wf : CuckooWF c)
-    (ht : template.counting = c.counting)
-    (h : c.exportBytes = .ok bytes) :
-    Cuckoo.load template bytes =
-      .ok { template with cap := c.cap, b := c.b, maxSwaps := c.maxSwaps, buckets := c.buckets,
-                          count := c.count, unique := c.unique } := by
-  rw [C05_cuckoo_roundtrip_table template c bytes wf.toCuckooTableWF ht h, wf.count, wf.unique]
-
-/-- re-supplying the filter's own settings gives the filter back -/
-theorem C05_cuckoo_roundtrip_self (c : Cuckoo) (bytes : Bytes) (wf : CuckooWF c)
-    (h : c.exportBytes = .ok bytes) : Cuckoo.load c bytes = .ok c :=
-  C05_cuckoo_roundtrip c c bytes wf rfl h
-
-theorem C05_cuckoo_stable (template c : Cuckoo) (bytes : Bytes) (wf : CuckooTableWF c)
-    (ht : template.counting = c.counting) (h : c.exportBytes = .ok bytes) :
-    ∃ c', Cuckoo.load template bytes = .ok c' ∧ c'.exportBytes = .ok bytes := by
-  refine ⟨_, C05_cuckoo_roundtrip_table template c bytes wf ht h, ?_⟩
-  rw [cuckoo_export_eq] at h ⊢
-  simpa [ht] using h
-
-/-- the reloaded table is again well formed (so it can be exported and reloaded again, and the
-    structural clauses of the table invariant C15 carry over to loaded filters) -/
-theorem C05_cuckoo_loaded_wf (template c c' : Cuckoo) (bytes : Bytes) (wf : CuckooTableWF c)
-    (ht : template.counting = c.counting) (h : c.exportBytes = .ok bytes)
-    (hl : Cuckoo.load template bytes = .ok c') :
-    CuckooWF c' ∧ c'.buckets = c.buckets ∧ c'.cap = c.cap ∧ c'.b = c.b ∧ c'.maxSwaps = c.maxSwaps ∧
-      c'.rate = template.rate ∧ c'.auto = template.auto ∧ c'.fpBits = template.fpBits ∧
-      c'.counting = template.counting := by
-  rw [C05_cuckoo_roundtrip_table template c bytes wf ht h] at hl
-  injection hl with hl
-  subst hl
-  refine ⟨⟨⟨wf.cap, wf.bpos, ?_⟩, rfl, ?_⟩, rfl, rfl, rfl, rfl, rfl, rfl, rfl, rfl⟩
-  · simpa [ht] using wf.bkts
-  · simp [ht]
-
-theorem C05_cuckoo_new_wf (counting : Bool) (cap b maxSwaps rate : Nat) (auto : Bool) (fpBits : Nat)
-    (hb0 : 0 < b) :
-    CuckooWF (Cuckoo.new counting cap b maxSwaps rate auto fpBits) := by
-  refine ⟨⟨by simp [Cuckoo.new], hb0, ?_⟩, ?_, ?_⟩
-  · intro bkt hbkt
-    simp only [Cuckoo.new, List.mem_replicate] at hbkt
-    rw [hbkt.2]; simp
-  · simp [Cuckoo.new, binCount]
-  · simp [Cuckoo.new, binNumber]
-
-/-! ### reachable cuckoo states satisfy the well-formedness of the round trip -/
-
-section Reachable
-open PyProb.Cuckoo
-
-/-- the table invariant of C15 together with the counters' bookkeeping gives `CuckooWF` -/
-theorem C05_cuckoo_wf_of_inv (G : Nat → Nat) (c : Cuckoo) (hinv : C15.Inv G c) (ha : Acct c) : CuckooWF c := by
-  obtain ⟨hlen, _, hb, _, hsize, _, _, _, hplain⟩ := hinv
-  refine ⟨⟨hlen, hb, ?_⟩, ?_, ?_⟩
-  · intro bkt hbkt
-    refine ⟨hsize bkt hbkt, fun bin hbin => ⟨?_, fun hc => hplain hc bin (List.mem_flatten.mpr ⟨bkt, hbkt, hbin⟩)⟩⟩
-    have hst : stored c bin := List.mem_flatten.mpr ⟨bkt, hbkt, hbin⟩
-    by_cases h0 : bin.1 = 0
-    · have : 0 < tsum (isFp 0) c := (tsum_pos_iff _ _).mpr ⟨bin, hst, by simp [isFp, h0]⟩
-      have := ha.fpPos
-      omega
-    · omega
-  · rw [ha.count]; rfl
-  · rw [ha.unique]
-    unfold uInc binNumber
-    have : tsum (fun _ => 1) c = (c.buckets.map List.length).sum := by
-      unfold tsum; congr 1
-      exact List.map_congr_left (fun bkt _ => bsum_one_length bkt)
-    rw [this]
-    split <;> simp
-
-theorem C05_cuckoo_acct_init (counting : Bool) (cap b maxSwaps rate : Nat) (auto : Bool) (fpBits : Nat) :
-    Acct (Cuckoo.new counting cap b maxSwaps rate auto fpBits) := acct_new _ _ _ _ _ _ _
-
-/-- every public operation keeps the bookkeeping, whether it returns normally or raises -/
-theorem C05_cuckoo_acct_step (G : Nat → Nat) (c : Cuckoo) (op : C15.Op × List Nat)
-    (hinv : C15.Inv G c) (ha : Acct c) : Acct (C15.step G c op) := by
-  have hw := (C15.inv_iff_wf G c).mp hinv
-  obtain ⟨op, oracle⟩ := op
-  cases op with
-  | add h => exact acct_add h oracle hw ha
-  | remove h => exact acct_remove h hw ha
-  | expand => exact acct_expand oracle hw ha
-
-theorem C05_cuckoo_acct_run (G : Nat → Nat) (c : Cuckoo) (ops : List (C15.Op × List Nat))
-    (hinv : C15.Inv G c) (ha : Acct c) : Acct (C15.run G c ops) := by
-  unfold C15.run
-  induction ops generalizing c with
-  | nil => exact ha
-  | cons op ops ih => exact ih (C15.step G c op) (C15.C15_step G c op hinv) (C05_cuckoo_acct_step G c op hinv ha)
-
-/-- every state reachable from a fresh filter by any history of add / remove / expand (any second
-    hash `G`, any oracles) that can be exported at all is reproduced exactly by loading its export -/
-theorem C05_cuckoo_roundtrip_reachable (G : Nat → Nat) (counting : Bool) (cap b maxSwaps rate : Nat)
-    (auto : Bool) (fpBits : Nat) (hcap : 0 < cap) (hb : 0 < b) (hrate : 0 < rate)
-    (ops : List (C15.Op × List Nat)) (bytes : Bytes)
-    (h : (C15.run G (Cuckoo.new counting cap b maxSwaps rate auto fpBits) ops).exportBytes = .ok bytes) :
-    Cuckoo.load (C15.run G (Cuckoo.new counting cap b maxSwaps rate auto fpBits) ops) bytes =
-      .ok (C15.run G (Cuckoo.new counting cap b maxSwaps rate auto fpBits) ops) := by
-  have hinv0 := C15.C15_init G counting cap b maxSwaps rate auto fpBits hcap hb hrate
-  have hinv := C15.C15_run G _ ops hinv0
-  have ha := C05_cuckoo_acct_run G _ ops hinv0 (C05_cuckoo_acct_init counting cap b maxSwaps rate auto fpBits)
-  exact C05_cuckoo_roundtrip_self _ bytes (C05_cuckoo_wf_of_inv G _ hinv ha) h
-
-/-- the clause of C15 about loaded filters: what `load` builds from the export of a filter
-    satisfying the table invariant satisfies the invariant (and the bookkeeping) again -/
-theorem C05_cuckoo_loaded_inv (G : Nat → Nat) (template c c' : Cuckoo) (bytes : Bytes)
-    (hinv : C15.Inv G c) (ha : Acct c) (ht : template.counting = c.counting) (hr : 0 < template.rate)
-    (h : c.exportBytes = .ok bytes) (hl : Cuckoo.load template bytes = .ok c') :
-    C15.Inv G c' ∧ Acct c' := by
-  have wf := C05_cuckoo_wf_of_inv G c hinv ha
-  rw [C05_cuckoo_roundtrip template c bytes wf ht h] at hl
-  injection hl with hl
-  subst hl
-  obtain ⟨hlen, hcap, hb, _, hsize, hpos, hnd, hcnt, hplain⟩ := hinv
-  refine ⟨⟨hlen, hcap, hb, hr, hsize, hpos, hnd, hcnt, ?_⟩, ⟨ha.fpPos, ha.count, ?_⟩⟩
-  · intro hc; exact hplain (ht ▸ hc)
-  · have hu := ha.unique
-    unfold uInc at hu ⊢
-    simp only [ht]
-    exact hu
-
-end Reachable
-
-/-! ## non-vacuity: concrete states, exported and reloaded (tests) -/
-
-/-- a geometry function for the examples: est 10, some rate pattern ↦ k = 3, m = 13 -/
-private def g13 : Geom := fun _ f => .ok (f, 3, 13)
-
-private def b13 : Bloom := ⟨10, 1028443341, 3, 13, [0x25, 0x11], 2⟩
-example : BloomWF b13 := ⟨rfl, by decide, by decide, by decide, by decide, by decide⟩
-example : Bloom.load g13 (b13.exportBytes.toOption.getD []) = .ok b13 := by rfl
-example : ∃ bytes, b13.exportBytes = .ok bytes ∧ bytes.length = 22 ∧ Bloom.load g13 bytes = .ok b13 := by
-  obtain ⟨bytes, h⟩ := C05_bloom_export_ok b13 ⟨rfl, by decide, by decide, by decide, by decide, by decide⟩
-  refine ⟨bytes, h, ?_, C05_bloom_roundtrip g13 b13 bytes rfl rfl h⟩
-  have : b13.exportBytes = .ok (b13.exportBytes.toOption.getD []) := by rfl
-  rw [this] at h; injection h with h; rw [← h]; decide
-example : Bloom.loadHex g13 (b13.exportHex.toOption.getD []) = .ok b13 := by rfl
-
-private def c5 : CBF := ⟨10, 1028443341, 3, 5, [0, 7, 4294967295, 1, 0], 8⟩
-example : CBF.load (fun _ f => .ok (f, 3, 5)) (c5.exportBytes.toOption.getD []) = .ok c5 := by rfl
-example : CBF.loadHex (fun _ f => .ok (f, 3, 5)) (c5.exportHex.toOption.getD []) = .ok c5 := by rfl
-
-private def e2 : Expanding :=
-  ⟨10, 1028443341, 3, 13, [⟨10, 1028443341, 3, 13, [0xff, 0x1f], 10⟩, ⟨10, 1028443341, 3, 13, [1, 0], 1⟩], 11⟩
-example : e2.blooms ≠ [] ∧ SubsOK e2 := ⟨by decide, by decide⟩
-example : Expanding.load g13 (e2.exportBytes.toOption.getD []) = .ok e2 := by rfl
-
-private def s23 : CMS := ⟨2, 3, [1, -2147483648, 0, 2147483647, -1, 5], -7, .mean⟩
-example : CMS.load .mean (s23.exportBytes.toOption.getD []) = .ok s23 := by rfl
-
-/-- partially filled buckets, an empty bucket, a full bucket -/
-private def k3 : Cuckoo := ⟨false, 3, 2, 500, 2, true, 8, [[(7, 1)], [], [(255, 1), (1, 1)]], 3, 0⟩
-example : CuckooWF k3 := ⟨⟨rfl, by decide, by decide⟩, by decide, by decide⟩
-example : Cuckoo.load k3 (k3.exportBytes.toOption.getD []) = .ok k3 := by rfl
-
-private def kc3 : Cuckoo := ⟨true, 3, 2, 500, 2, true, 8, [[(7, 4)], [], [(255, 1), (1, 9)]], 14, 3⟩
-example : CuckooWF kc3 := ⟨⟨rfl, by decide, by decide⟩, by decide, by decide⟩
-example : Cuckoo.load kc3 (kc3.exportBytes.toOption.getD []) = .ok kc3 := by rfl
-
-/-- a reachable plain filter (kicks and a removal included) and a reachable counting filter -/
-example :
-    let c := C15.run (fun x => x / 3) (Cuckoo.new false 2 2 10 2 false 8)
-      [(.add 5, [0, 1]), (.add 77, [1]), (.add 9, [1, 0, 1]), (.remove 5, []), (.add 300, []), (.add 1024, [0, 0, 1])]
-    Cuckoo.load c (c.exportBytes.toOption.getD []) = .ok c :=
-  C05_cuckoo_roundtrip_reachable _ false 2 2 10 2 false 8 (by decide) (by decide) (by decide) _ _ (by rfl)
-example :
-    let c := C15.run (fun x => x / 3) (Cuckoo.new true 2 1 10 2 true 8)
-      [(.add 5, [0, 1]), (.add 5, []), (.add 9, [1, 0, 1]), (.add 7, [0, 1, 1, 0]), (.remove 5, []), (.expand, [])]
-    Cuckoo.load c (c.exportBytes.toOption.getD []) = .ok c :=
-  C05_cuckoo_roundtrip_reachable _ true 2 1 10 2 true 8 (by decide) (by decide) (by decide) _ _ (by rfl)
-
-/-- the excluded case is real: a stored fingerprint 0 (impossible in the fixed code) is lost -/
-example : (Cuckoo.load k3 (({ k3 with buckets := [[(0, 1)], [], []], count := 1 } : Cuckoo).exportBytes.toOption.getD [])).toOption.map
-    (fun c => (c.buckets, c.count)) = some ([[], [], []], 0) := by rfl
-
-end PyProb.C05
+import PyProb.Properties.C05_bloom
+import PyProb.Properties.C05_cms
+import PyProb.Properties.C05_cuckoo
